@@ -124,6 +124,13 @@ def radio_request_settings_rules(ctx, rule='R4'):
     ctx.need(nreq >= 3, '_SharedRadio.run: expected three transmitting request kinds, found %d' % nreq)
 
 
+def expand_fmt(fmt):
+    """struct format with repeat counts written out: '<5B' -> '<BBBBB'"""
+    if not isinstance(fmt, str):
+        return fmt
+    return re.sub(r'(\d+)([a-zA-Z?])', lambda m_: m_.group(2) * int(m_.group(1)) if m_.group(2) not in 'sp' else m_.group(0), fmt)
+
+
 def check(ctx):
     m = ctx.model
     # ---- R1 ---------------------------------------------------------------------------
@@ -205,11 +212,23 @@ def check(ctx):
         return sorted([n for n in g.nodes if n.kind == 'stmt' and isinstance(n.ast, ast.Assign) and norm(n.ast.targets[0]) == name], key=lambda n: n.line)
     sc = Scope.of(pu)
     ch = assigns('channel')
-    ctx.need(len(ch) == 2, 'parse_uri: channel default/override not found')
-    ctx.inst('R2', pu, 'default-channel', fold_in(pu, ch[0].ast.value) == 2 and g.dominates(ch[0], ch[1]) and all(g.dominates(ch[0], r) for r in g.nodes if r.kind == 'return'), 'default channel must be 2, assigned unconditionally first')
+    # default first and override after it, or one decision: every branch stores the channel, the default (2) where the first field
+    # is missing or empty, int(first field) elsewhere
+    chain = len(ch) >= 2 and not g.dominates(ch[0], ch[-1]) and len([n for n in ch if norm(n.ast.value) == 'int(parsed_path[0])']) == 1
+    if chain:
+        fld = [n for n in ch if norm(n.ast.value) == 'int(parsed_path[0])']
+        dfl = [n for n in ch if n not in fld]
+        ctx.need(len(fld) == 1 and dfl, 'parse_uri: channel default/override not found')
+        rets_ = [r for r in g.nodes if r.kind == 'return']
+        every = all(g.path_avoiding(g.entry, [r], avoid=ch) is None for r in rets_)
+        ctx.inst('R2', pu, 'default-channel', all(fold_in(pu, n.ast.value) == 2 for n in dfl) and every, 'default channel must be 2 and every path to the return stores a channel')
+        ch = [dfl[0], fld[0]]
+    else:
+        ctx.need(len(ch) == 2, 'parse_uri: channel default/override not found')
+        ctx.inst('R2', pu, 'default-channel', fold_in(pu, ch[0].ast.value) == 2 and g.dominates(ch[0], ch[1]) and all(g.dominates(ch[0], r) for r in g.nodes if r.kind == 'return'), 'default channel must be 2, assigned unconditionally first')
     ctx.inst('R2', pu, 'channel-field', norm(ch[1].ast.value) == 'int(parsed_path[0])', 'channel = int(first path field)')
     keys = g.fact_keys_at(ch[1])
-    nontrivial = [k for k in keys if 'parsed_path' in k[0] and k != fact_key('len(parsed_path) > 0', True)]
+    nontrivial = [k for k in keys if 'parsed_path' in k[0] and k != fact_key('len(parsed_path) > 0', True) and k != fact_key('parsed_path', True) and k != fact_key('not parsed_path', False)]
     ctx.inst('R3', pu, 'channel-default-reachable', bool(nontrivial),
              'the channel override is guarded only by len(parsed_path) > 0, which is always true for str.split() results: the default is dead and '
              "'radio://0' raises ValueError; guards %s" % sorted(keys))
@@ -281,7 +300,7 @@ def check(ctx):
     ft = format_template(inner) if inner is not None else None
     ctx.inst('R2', pu, 'address-padding', inner is not None and (norm(inner) in pads or (ft is not None and ft == ('{:0>10}', ['parsed_path[2]']))),
              'short addresses are zero padded on the left to 10 hex digits; found %s' % (norm(inner) if inner is not None else norm(ov)))
-    ctx.inst('R2', pu, 'address-bytes', inner is not None and fold_in(pu, ov.args[0]) == '<BBBBB' and
+    ctx.inst('R2', pu, 'address-bytes', inner is not None and expand_fmt(fold_in(pu, ov.args[0])) == '<BBBBB' and
              fact_key('len(parsed_path) > 2', True) in g.fact_keys_at(ad[1]), 'address = the five bytes in typed order')
     rl = assigns('rate_limit')
     ctx.inst('R2', pu, 'rate-limit', len(rl) == 2 and norm(rl[0].ast.value) == 'None' and norm(rl[1].ast.value) == "int(parsed_query['rate_limit'][0])" and
@@ -422,7 +441,19 @@ def check(ctx):
     ctx.inst('R4', si, 'scan-address-format', len(fm) >= 3 and all(x.endswith('/{:X}') for x in fm), 'scanned URIs carry the address as upper-case hex: %s' % sorted(set(fm)))
     st = {norm(s.targets[0]): norm(s.value) for s in walk_own(si.node) if isinstance(s, ast.Assign)}
     addr_def = [s_.value for s_ in walk_own(si.node) if isinstance(s_, ast.Assign) and norm(s_.targets[0]) == 'addr']
-    ctx.inst('R4', si, 'scan-address-conversion', len(addr_def) == 1 and format_template(addr_def[0]) == ('{:0>10X}', ['address']) and st.get('new_addr') == "struct.unpack('<BBBBB', binascii.unhexlify(addr))",
+    conv_ok = len(addr_def) == 1 and format_template(addr_def[0]) == ('{:0>10X}', ['address']) and st.get('new_addr') == "struct.unpack('<BBBBB', binascii.unhexlify(addr))"
+    if not conv_ok:
+        # the same conversion without the two locals: set_address(unpack(<five bytes>, unhexlify(<address as 10 hex digits, zero padded on the left>)))
+        gsi = cfg_of(si)
+        for n_, c_ in gsi.find(lambda q: method_call(q, 'set_address') and len(q.args) == 1):
+            e_ = gsi.expand_locals(n_, c_.args[0], pure_only=False, keep=('address',))
+            if isinstance(e_, ast.Call) and dotted(e_.func) == 'struct.unpack' and len(e_.args) == 2 and expand_fmt(fold_in(si, e_.args[0])) == '<BBBBB' and \
+                    isinstance(e_.args[1], ast.Call) and dotted(e_.args[1].func) == 'binascii.unhexlify' and len(e_.args[1].args) == 1:
+                p_ = e_.args[1].args[0]
+                t_ = norm(p_)
+                conv_ok = format_template(p_) == ('{:0>10X}', ['address']) or t_ in ("'{:X}'.format(address).rjust(10, '0')", "'{:X}'.format(address).zfill(10)",
+                                                                                   "'%X' % address.rjust(10, '0')", "('%X' % address).rjust(10, '0')")
+    ctx.inst('R4', si, 'scan-address-conversion', conv_ok,
              'scan address uses the same 10-digit left padding and byte order as parse_uri')
 
     radio_request_settings_rules(ctx, 'R4')
@@ -440,10 +471,19 @@ def check(ctx):
     tr = [t for t in lp[0].body if isinstance(t, ast.Try)]
     ctx.need(len(tr) == 1, 'get_link_driver: try not found')
     body = [norm(s) for s in effective(tr[0].body) + effective(tr[0].orelse)]         # `else: return instance` is the same control flow
-    ctx.inst('R5', gl, 'first-accepting-driver-wins', body == ['instance = %s()' % norm(lp[0].target), 'instance.connect(%s, %s, %s)' % tuple(gl.params[:3]), 'return instance'],
-             'instantiate, connect with the URI and callbacks, return the instance; body %s' % body)
     hs = tr[0].handlers
     rest = effective(lp[0].body[lp[0].body.index(tr[0]) + 1:])
+    # the same decision carried by a local: try: v = cls(); v.connect(..); r = v / except WrongUriType: r = None / if r is not None: return r
+    if len(body) == 3 and len(hs) == 1 and len(effective(hs[0].body)) == 1 and len(rest) == 1 and isinstance(rest[0], ast.If) and not rest[0].orelse:
+        last_, hb_, tail_ = effective(tr[0].body)[-1], effective(hs[0].body)[0], rest[0]
+        if isinstance(last_, ast.Assign) and isinstance(hb_, ast.Assign) and norm(last_.targets[0]) == norm(hb_.targets[0]) and norm(hb_.value) == 'None' and \
+                norm(tail_.test) == '%s is not None' % norm(last_.targets[0]) and [norm(x) for x in effective(tail_.body)] == ['return %s' % norm(last_.targets[0])]:
+            v_ = norm(last_.value)
+            body = [b_.replace(v_, 'instance') if v_.isidentifier() else b_ for b_ in body[:2]] + ['return instance']
+            rest = []
+            hs = [ast.ExceptHandler(type=hs[0].type, name=None, body=[ast.Continue()])]
+    ctx.inst('R5', gl, 'first-accepting-driver-wins', body == ['instance = %s()' % norm(lp[0].target), 'instance.connect(%s, %s, %s)' % tuple(gl.params[:3]), 'return instance'],
+             'instantiate, connect with the URI and callbacks, return the instance; body %s' % body)
     ok = len(hs) == 1 and handler_names(hs[0]) == ['WrongUriType'] and [norm(s) for s in effective(hs[0].body)] in (['continue'], []) and not rest and not tr[0].finalbody
     ctx.inst('R5', gl, 'continue-only-on-wrong-scheme', ok, 'only WrongUriType moves on to the next driver; handlers %s' % [handler_names(h) for h in hs])
     after = [norm(s) for s in effective(gl.node.body[gl.node.body.index(lp[0]) + 1:])]
